@@ -60,6 +60,10 @@ func wfSpace(c *harness.Ctx) *envSpaces {
 			gen.EnvSpace{Names: []string{"A", "B"}, Bodies: b1, N: 2},
 			gen.EnvSpace{Names: []string{"A"}, Bodies: b2, N: 1},
 			gen.EnvSpace{Names: []string{"A", "A"}, Bodies: gen.Annotated(gen.Types(0, o), anns[:2]), N: 2},
+			// alias and recursion graphs over three names (every function {A,B,C} -> small bodies)
+			gen.EnvSpace{Names: []string{"A", "B", "C"}, Bodies: aliasBodies(), N: 3},
+			// every one of the 32 shift forms under every annotation
+			gen.EnvSpace{Names: []string{"A"}, Bodies: gen.Annotated(gen.Types(1, gen.TypeOpts{Shifts: gen.AllShifts()}), anns), N: 1},
 		)
 	} else {
 		o3 := gen.TypeOpts{Names: []string{"A", "B", "C"}, Labels: []string{"l", "r"}, Shifts: gen.RepresentativeShifts[:6]}
@@ -88,6 +92,29 @@ func wfSpace(c *harness.Ctx) *envSpaces {
 	return s
 }
 
+// aliasBodies: bodies for the three-name alias/recursion/mode graphs.
+func aliasBodies() []ref.AnnTy {
+	var out []ref.AnnTy
+	add := func(t *ref.Ty) { out = append(out, ref.AnnTy{T: t}) }
+	add(ref.Unit())
+	out = append(out, ref.AnnTy{Ann: ref.MLin, T: ref.Unit()}, ref.AnnTy{Ann: ref.MAff, T: ref.Unit()})
+	names := []string{"A", "B", "C"}
+	for _, n := range names {
+		add(ref.Name(n))
+	}
+	for _, n := range names {
+		add(ref.Plus(ref.Branch{Label: "l", T: ref.Name(n)}))
+	}
+	for _, n := range names {
+		add(ref.Plus(ref.Branch{Label: "l", T: ref.Plus(ref.Branch{Label: "l", T: ref.Name(n)})}))
+	}
+	for i, n := range names {
+		add(ref.Tensor(ref.Name(n), ref.Name(names[(i+1)%3])))
+	}
+	add(ref.Tensor(ref.Name("A"), ref.Name("A")))
+	return out
+}
+
 func chunks(n int) int { return (n + envChunk - 1) / envChunk }
 
 // envProgram renders the definitions plus one identity function per distinct defined name,
@@ -110,7 +137,7 @@ func init() {
 	// ---------------- C10 ----------------
 	harness.Register(&harness.Check{
 		ID: "C10", Level: "exploration",
-		Rule:        "all environments of <= 2 (quick) / <= 3 (thorough) type definitions over names A,B(,C) with bodies = every type of depth <= 1 (depth <= 2 for single definitions) over 1, *, -*, +{l},+{l,r},&{..}, legal and illegal shifts, duplicated labels, each with every head annotation (none, 4 modes, an unknown mode), plus duplicated definitions; each is turned into a program (definitions + one identity function per name) and also used as annotation type of a parameter/result, of an assumed name + process, and of a typed cut; verdict of the real typechecker must equal the independent well-formedness checker R-wf; distinct_nontrivial counts distinct program texts with at least one type constructor",
+		Rule:        "all environments of <= 2 (quick) / <= 3 (thorough) type definitions over names A,B(,C) (plus, in both tiers, all 4096 alias/recursion/mode graphs over three names with bodies 1, lin 1, aff 1, X, +{l:X}, +{l:+{l:X}}, X * Y and all 32 shift forms under every annotation) with bodies = every type of depth <= 1 (depth <= 2 for single definitions) over 1, *, -*, +{l},+{l,r},&{..}, legal and illegal shifts, duplicated labels, each with every head annotation (none, 4 modes, an unknown mode), plus duplicated definitions; each is turned into a program (definitions + one identity function per name) and also used as annotation type of a parameter/result, of an assumed name + process, and of a typed cut; verdict of the real typechecker must equal the independent well-formedness checker R-wf; distinct_nontrivial counts distinct program texts with at least one type constructor",
 		Assumptions: []string{"R-wf (ref/types.go) is the reading of 'well-formed' used: single definition, defined names, distinct labels, no cycle of bare-name definitions, known modes, modes uniform up to shifts, legal shifts, directional mode inference (DESIGN 4.6)"},
 		Cases:       func(c *harness.Ctx) int { return chunks(wfSpace(c).total) + len(annEnvs())*len(annPool(c)) },
 		Run: func(c *harness.Ctx, idx int, r *harness.Rec) {
